@@ -953,10 +953,12 @@ def no_dashes(tokens, start, string):
 
 
 digit = Char("0123456789")
+# A DASH BELONGS TO A NAME ONLY BETWEEN TWO NAME CHARACTERS (NOT DIGITS)
+NAME_CHAR = "@_$A-Za-zÀ-ÖØ-öø-ƿ"
 with whitespaces.NO_WHITESPACE:
     # repack the expression into a regex for faster parsing ident_w_dash
     ident_w_dash = Regex(
-        (Char(FIRST_IDENT_CHAR) + (Regex("(?<=[^ 0-9])\\-(?=[^ 0-9])") | Char(IDENT_CHAR))[...]).__regex__()[1]
+        (Char(FIRST_IDENT_CHAR) + (Regex("(?<=[" + NAME_CHAR + "])\\-(?=[" + NAME_CHAR + "])") | Char(IDENT_CHAR))[...]).__regex__()[1]
     )
     ident_w_dash_warning = ident_w_dash.set_parser_name("identifier_with_dashes") / no_dashes
 
